@@ -106,7 +106,7 @@ def write_cfgs(tier):
     return base
 
 
-EDITS = ["replace-index", "inplace-index", "nudge-index", "insert-curve0", "edit-other-curve", "edit-header", "edit-wrap"]
+EDITS = ["replace-index", "inplace-index", "nudge-index", "insert-curve0", "edit-other-curve", "nan-other-curve", "edit-header", "edit-wrap"]
 INDEX_EDITS = ("replace-index", "inplace-index", "nudge-index", "insert-curve0")
 
 
@@ -199,6 +199,13 @@ def apply_edit(las, e, step):
         if c.data.dtype.kind != "f":
             return False
         c.data[0] = 77.0 + step
+    elif e == "nan-other-curve":
+        if len(las.curves) < 2:
+            return False
+        c = las.curves[1]
+        if c.data.dtype.kind != "f":
+            return False
+        c.data[-1] = np.nan if not np.isnan(c.data[-1]) else 5.5   # in place: toggles a NaN
     elif e == "edit-header":
         las.well["WELL"].value = "changed %d" % step
     elif e == "edit-wrap":
@@ -230,6 +237,12 @@ def replay_history(root, tier, history):
                 ctx.dirty = True
             ctx.last_write = None
     return ctx
+
+
+def col_quantum(cfg, j):
+    f = cfg.get("column_fmt", {}).get(j, cfg.get("fmt", "%.5f"))
+    t = f % 1.0
+    return 10.0 ** (-len(t.split(".")[1])) if "." in t else 1.0
 
 
 def fmt_quantum(cfg):
@@ -278,6 +291,25 @@ def step_check(root, tier, history, op):
         if before != after:
             vio.append(viol("repeat-memory", root, tier, history, op, "no further in-memory change on the second write",
                             canon.diff_tags(before, after)))
+    # (d) the output carries the data as it is in memory now (to format precision), NaN as NULL
+    try:
+        back_d = lasio.read(text)
+        if all(c.data.dtype.kind == "f" for c in las.curves):
+            for j, c in enumerate(las.curves):
+                if j >= len(back_d.curves):
+                    vio.append(viol("output-data", root, tier, history, op, "curve %d present in the output" % j, len(back_d.curves)))
+                    break
+                mem = np.asarray(c.data, dtype=float)
+                out = np.asarray(back_d.curves[j].data, dtype=float)
+                q = col_quantum(cfg, j) / 2 + 1e-9
+                same = mem.shape == out.shape and np.array_equal(np.isnan(mem), np.isnan(out))
+                if same and mem.size:
+                    same = float(np.max(np.abs(np.nan_to_num(mem) - np.nan_to_num(out)))) <= q
+                if not same:
+                    vio.append(viol("output-data", root, tier, history, op, {"curve": j, "memory": mem.tolist()}, out.tolist()))
+                    break
+    except Exception as e:
+        pass  # unreadable output is reported by clause (c) when it applies
     # (c) truthfulness
     if ctx.dirty and las.curves[0].data.dtype.kind == "f":
         try:
